@@ -261,7 +261,7 @@ def check(pat, repl, src, count, fn):
         nontrivial = any(k >= 1 and d != got for k, d in exp)
         # a pass whose textual splice does not parse is rolled back (C10); only demand a replacement
         # when splicing the instantiated text at some free occurrence gives valid Python
-        spliceable = False
+        spliceable = bool(free)
         for i in free:
             a, b, env = occ[i]
             binds = {k[5:]: v for k, v in env.items() if k.startswith("node:")}
@@ -269,12 +269,12 @@ def check(pat, repl, src, count, fn):
             for name, node in binds.items():
                 txt = txt.replace("{{" + name + "}}", ast.unparse(node))
             s0, e0 = spans[i]
-            if "\n" not in txt:
-                try:
-                    ast.parse(src[:s0] + txt + src[e0:])
-                    spliceable = True
-                except SyntaxError:
-                    pass
+            try:
+                if "\n" in txt:
+                    raise SyntaxError("multi-line replacement: indentation is the tool's business")
+                ast.parse(src[:s0] + txt + src[e0:])
+            except SyntaxError:
+                spliceable = False  # the whole pass is rolled back if one splice does not parse
         if free and nontrivial and spliceable and pat != repl:
             V("nothing_replaced", "occurrences exist and an admissible replacement changes the tree, output == input")
     return out, True
